@@ -40,6 +40,7 @@ type Gen struct {
 }
 
 func Load(repo string) (*Gen, error) {
+	loadNeverAssume()
 	cfg := &packages.Config{Mode: packages.LoadAllSyntax, Dir: repo, BuildFlags: []string{"-tags=verif"},
 		Env: append(os.Environ(), "GOFLAGS=-mod=mod", "GOPROXY=off", "GOSUMDB=off", "GOTOOLCHAIN=local")}
 	pkgs, err := packages.Load(cfg, "./", "./ast", "./token", "./char")
@@ -507,7 +508,16 @@ func (fx *fnExec) checkPost(e *Exit) {
 		if label == "" {
 			label = fmt.Sprint(k)
 		}
-		if reason, skip := fx.g.cs.Unproved[c.Func][label]; skip {
+		site := suffix
+		if site == "" {
+			site = "@r0"
+		}
+		reason, skip := fx.g.cs.Unproved[c.Func][label]
+		if !skip {
+			// an entry may name one return site only: LABEL@rN (N = 0 for the first return in SSA order)
+			reason, skip = fx.g.cs.Unproved[c.Func][label+site]
+		}
+		if skip {
 			s.Assumed = appendUnique(s.Assumed, fmt.Sprintf("%s/post:%s is assumed by callers but not proved (%s)", c.Func, label, reason))
 			continue
 		}
